@@ -556,6 +556,8 @@ impl AccessRaw for RawVector {
 
     #[inline]
     fn set_bit(&mut self, bit_offset: usize, value: bool) {
+        // A set bit past the end of the vector would break the invariant that the unused bits are 0.
+        assert!(bit_offset < self.len(), "Bit offset is out of bounds");
         let (index, offset) = bits::split_offset(bit_offset);
         self.data[index] &= !(1u64 << offset);
         self.data[index] |= (value as u64) << offset;
